@@ -14,7 +14,7 @@
    The hypotheses that remain are premises of the theorems below (nothing is assumed globally). *)
 From stdpp Require Import gmap strings sorting.
 Require Import Grits.Base Grits.Forms Grits.Expand Grits.TcTop Grits.Runtime.
-Require Import Grits.proofs.RuntimeFacts Grits.proofs.Diamond Grits.proofs.Determinism Grits.proofs.DeterminismExamples.
+Require Import Grits.proofs.RuntimeFacts Grits.proofs.Diamond Grits.proofs.Determinism Grits.proofs.AsyncSync Grits.proofs.DeterminismExamples.
 
 Theorem C03_step_is_move : forall md D F c ch, step md D F c ch = sres_of c (move_of md D F c ch).
 Proof. exact step_move. Qed.
@@ -102,6 +102,29 @@ Theorem C03_no_longer_run : forall (md : exec_mode) (D : STypes.tenv) (F : list 
     I c -> ns_ok c -> nsteps (stp md D F) n c t -> quiescent md D F t -> nsteps (stp md D F) m c c' -> (m <= n)%nat.
 Proof. exact no_longer_run. Qed.
 
+(* asynchronous vs synchronous polarized mode: every maximal synchronous run is matched by a maximal
+   asynchronous run with the same output (no hypothesis besides empty buffers at the start, which
+   holds for every initial configuration) ... *)
+Theorem C03_bufs_empty_init : forall p, bufs_empty (init_config p).
+Proof. exact bufs_empty_init. Qed.
+
+Theorem C03_sync_run_matched : forall D F n c t,
+  bufs_empty c -> nsteps (stp Sync D F) n c t -> quiescent Sync D F t ->
+  exists n' t', nsteps (stp Async D F) n' c t' /\ quiescent Async D F t' /\ out t' = out t.
+Proof. exact sync_run_matched. Qed.
+
+(* ... hence, under the invariant hypotheses for the ASYNCHRONOUS mode only, every asynchronous run
+   prints the multiset that a completed synchronous run printed *)
+Theorem C03_async_sync_agree_partial : forall (D : STypes.tenv) (F : list fundef) (I : config -> Prop),
+  (forall c ch c', I c -> step Async D F c ch = SStep c' -> I c') ->
+  (forall c a b c1 c2, I c -> a ≠ b -> step Async D F c a = SStep c1 -> step Async D F c b = SStep c2 -> indep Async D c a b) ->
+  (forall c ch who e, I c -> step Async D F c ch ≠ SError who e) ->
+  forall c pick1 f1 t1,
+    I c -> ns_ok c -> bufs_empty c -> exec_run f1 pick1 Sync D F c = RQuiescent t1 ->
+    exists n, forall pick2 f2, (n < f2)%nat ->
+      exists t2, exec_run f2 pick2 Async D F c = RQuiescent t2 /\ labels t2 ≡ₚ labels t1.
+Proof. exact async_sync_agree_partial. Qed.
+
 (* non-vacuity, on a program that goes through the model of the real front end *)
 Example C03_demo_two_orders_async :
   run_labels Async pick_first demo_text = Some ["right"; "left"; "done"] /\
@@ -138,6 +161,9 @@ Print Assumptions C03_diamond_sync_rendezvous_run.
 Print Assumptions C03_determinism_partial.
 Print Assumptions C03_maximal_runs_same_length.
 Print Assumptions C03_no_longer_run.
+Print Assumptions C03_bufs_empty_init.
+Print Assumptions C03_sync_run_matched.
+Print Assumptions C03_async_sync_agree_partial.
 Print Assumptions C03_demo_two_orders_async.
 Print Assumptions C03_demo_two_orders_sync.
 Print Assumptions C03_demo_diamond_nonvacuous.
